@@ -33,6 +33,10 @@ UNITS['autogen_recursive'] = autogen_unit('recursive')
 for _l in ('dex', 'small', 'recursive_with_poseidon', 'starknet'):
     UNITS['autogen_' + _l] = autogen_unit(_l)
 
+# DEEP (OODS) evaluator only; the composition evaluator of this layout (10 k lines) is out of memory reach (DESIGN section 2)
+UNITS['autogen_starknet_with_keccak'] = autogen_unit('starknet_with_keccak', mem_kb=50_000_000)
+UNITS['autogen_starknet_with_keccak']['stack'] = 2 << 30
+
 # hash / stone variants of the core unit (thorough tier): the templates were written against keccak_160_lsb + stone5, the other
 # variants go through the transplant path (cfg resolution selects the other hash constructors / digest windows)
 CORE_FRAGS = UNITS['core']['fragments']
@@ -115,10 +119,10 @@ PROPS['C08']['quick'] = ['core'] + _LIGHT
 PROPS['C08']['thorough'] = ['core'] + _LIGHT
 PROPS['C01']['thorough'] = ['core'] + _LIGHT
 PROPS['C02']['thorough'] = ['core'] + _LIGHT
-PROPS['C16'] = dict(quick=['core', 'autogen_recursive'], thorough=['core', 'autogen_recursive', 'autogen_dex', 'autogen_small', 'autogen_recursive_with_poseidon', 'autogen_starknet'],
+PROPS['C16'] = dict(quick=['core', 'autogen_recursive'], thorough=['core', 'autogen_recursive', 'autogen_dex', 'autogen_small', 'autogen_recursive_with_poseidon', 'autogen_starknet', 'autogen_starknet_with_keccak'],
     claim='For each layout covered, the UNCHANGED bodies of the autogenerated composition and DEEP evaluators type-check with the coefficient vector retyped to an abstract Coeff (usable only as one factor of a product with a field element) and the result retyped to a linear form, and the ghost contract proves every coefficient position 0..N-1 is used exactly once, in order, with no constant part; powers_array is proved to return alpha^i, and stark_commit to pass N_CONSTRAINTS resp. MASK_SIZE+DEGREE of them. Index obligations show the evaluators read exactly mask/oods positions within the checked lengths.',
     technique='typing + ghost-state contract (lo, hi, count, czero) on eval_composition_polynomial_inner / eval_oods_polynomial_inner extracted with two signature-level rewrites; functional postcondition on powers_array',
-    note='Not decided: that each term is not identically zero (needs a witness evaluation per constraint). Divisions inside the evaluators are assumed non-zero (A-fs-nonzero). Layout coverage: see evidence units.')
+    note='Not decided: that each term is not identically zero (needs a witness evaluation per constraint). Divisions inside the evaluators are assumed non-zero (A-fs-nonzero). Layout coverage: recursive (quick); dex, small, recursive_with_poseidon, starknet (thorough); starknet_with_keccak DEEP evaluator only (thorough, 5 min, 17 GB); the starknet_with_keccak composition evaluator and both dynamic-layout evaluators are NOT under contract (memory; dynamic column indexing), so a change there is not seen.')
 PROPS['C17'] = dict(quick=['core'], thorough=['core'],
     claim='Every loop and recursive function under contract has a machine-checked decreases clause (Verus rejects the unit otherwise) and labelled trip-count bounds tied to validated constants or the length of supplied data: queries <= 48 (config), FRI layers <= 14, coset <= 16, layer loop <= |queries|, Merkle walk consumes a node or two entries per step, Horner = |coefficients|, page product = |main page|, diluted = n_bits-1 <= 63.',
     technique='decreases clauses and loop invariants on every loop of the functions under contract (termination is an obligation of each unit)',
